@@ -22,4 +22,25 @@ PROPS = {
              "the count are asserted there (gray). non-trivial = a group of >=3 members and >=1 indexed reference.",
         oracle_kind="an independent reference interpreter",
     ),
+    "C13": dict(
+        engine="p_semantics", quick_checks=40000, thorough_checks=1000000, quick_shards=14, thorough_shards=16,
+        rule="programs with a vars block at the root and in 0-3 levels of nested containers (shadowing chains, dotted variable paths, scalar values: "
+             "words, numbers, spaced phrases) and 0-4 uses per scope: alone, inside unquoted text, inside double-quoted text, inside single-quoted "
+             "text (never substituted), as connection label, as style value, as width, twice in one string; undefined names. Metamorphic twin: the "
+             "printer emits P and P' where each ${v} is replaced by the value of the innermost enclosing vars block defining v; oracle: "
+             "canon(compile(P)) == canon(compile(P')); any undefined reference => 'could not resolve variable' error. non-trivial = a shadowed variable "
+             "is used and a substitution sits inside a larger string.",
+        oracle_kind="a metamorphic twin program",
+    ),
+    "C14": dict(
+        engine="p_semantics", quick_checks=30000, thorough_checks=600000, quick_shards=14, thorough_shards=16,
+        rule="file sets of 1-4 files (index, x, y, sub/z) in an in-memory FS. twin class: each file has 1-5 statements (objects, labels, connections, "
+             "styles, root-level label/style, relative icons) and imports later files; the index imports by spread at the top, by value into an "
+             "otherwise empty key, or by key (@f.k); paths spelled plain / with .d2 / quoted / with ./ and ../ ; oracle: the set compiles to the same "
+             "canonical diagram as the single file with every import replaced by the imported content (relative icons pre-joined with the import "
+             "directory). cycle class: chains of length 1-4 closed back to any earlier file through any spelling must be rejected with an error "
+             "naming a cycle; acyclic chains and diamonds must not. globs class: a * / ** glob of a spread-imported file must not touch the "
+             "importer's objects, a *** glob must (also objects declared after the import). non-trivial = >=2 files and (nested import or >=2 imports).",
+        oracle_kind="a metamorphic twin (inlined imports) and direct rule checks",
+    ),
 }
